@@ -257,7 +257,10 @@ PROPS = {
         "explanation": "Lean theorems: encode_never_panics (for every well-formed tokenizer, valid UTF-8 text and sane external libraries the whole "
                        "pipeline returns tokens or an encode error, never a panic; every str slice is on a character boundary), composed from "
                        "normalize_total, split_aligned, parts_total, encoder_never_panics, process_never_panics; decode_never_panics for any ids "
-                       "on any tokenizer. Tied to the code by differential runs of the whole pipeline with overflow checks on.",
+                       "on any tokenizer; loaded_tokenizer_wf / loaded_tokenizer_never_panics: a definition that the constructor accepts "
+                       "(Tokenizer.new = ok) and that comes from a well-formed source (LoadableWF: no empty special or token text, no id "
+                       "u32::MAX, UTF-8 configuration strings) satisfies all hypotheses of encode_never_panics. Tied to the code by "
+                       "differential runs of the whole pipeline with overflow checks on.",
     },
     "C15": {
         "level": "proof",
